@@ -30,9 +30,13 @@ def load_tu(repo, rel, bdir):
     if p.returncode != 0 or not p.stdout:
         raise Cannot("clang could not parse " + rel)
     tu = json.loads(p.stdout)
-    funs, enums, gvars = {}, {}, {}
+    funs, enums, gvars, gvar_decls, typedefs = {}, {}, {}, [], {}
     for d in tu.get("inner", []):
         k = d.get("kind")
+        if k == "VarDecl":
+            gvar_decls.append(d)
+        if k == "TypedefDecl" and "name" in d:
+            typedefs[d["name"]] = (d.get("type") or {}).get("qualType", "")
         if k == "FunctionDecl" and any(c.get("kind") == "CompoundStmt" for c in d.get("inner", [])):
             funs[d["name"]] = d
         elif k == "EnumDecl":
@@ -44,7 +48,7 @@ def load_tu(repo, rel, bdir):
                     enums[c["name"]] = val
         elif k == "VarDecl" and d.get("inner"):
             gvars[d["name"]] = d
-    return {"funs": funs, "enums": enums, "gvars": gvars, "rel": rel}
+    return {"funs": funs, "enums": enums, "gvars": gvars, "gvar_decls": gvar_decls, "typedefs": typedefs, "rel": rel}
 
 
 def const_value(node):
@@ -313,7 +317,7 @@ def build_items(repo, bdir):
 
 HEADER = """(* GENERATED by tools/srcfacts.py from /repo's current sources - do not edit. *)
 From Coq Require Import List ZArith NArith Bool String Ascii.
-From CgreenVerif Require Import Defs CStr.
+From CgreenVerif Require Import Defs CStr Buffers.
 Import ListNotations.
 Local Open Scope Z_scope.
 
